@@ -158,6 +158,11 @@ def malformed(ctx, pop, classes):
             cases.append(("bad-key_ops", dict(base, key_ops=v)))
         cases.append(("contradictory-use-ops", dict(base, use="sig", key_ops=["encrypt"])))
         cases.append(("contradictory-use-ops", dict(base, use="enc", key_ops=["verify"])))
+        # partly contradictory: some operations belong to the declared use, others to the other one
+        cases.append(("contradictory-use-ops-mixed", dict(base, use="sig", key_ops=["sign", "verify", "decrypt"])))
+        cases.append(("contradictory-use-ops-mixed", dict(base, use="sig", key_ops=["wrapKey", "sign"])))
+        cases.append(("contradictory-use-ops-mixed", dict(base, use="enc", key_ops=["encrypt", "sign"])))
+        cases.append(("contradictory-use-ops-mixed", dict(base, use="enc", key_ops=["deriveKey", "deriveBits", "verify"])))
         cases.append(("bad-kid", dict(base, kid=7)))
         cases.append(("bad-alg", dict(base, alg=["HS256"])))
         cases.append(("bad-x5c", dict(base, x5c="abc")))
